@@ -39,7 +39,7 @@ ASSUMPTIONS = [
     "thresholds are those of the generated scenario (nmne 0/5/10, file access 2/5/10, executions 2/3/5)",
 ]
 
-GROUPS = ["host_sw", "host_fs", "nic", "acl", "link", "absent"]
+GROUPS = ["host_sw", "host_fs", "nic", "acl", "link", "absent", "fw"]
 
 
 def _env(kind: str, nmne: bool, flatten: bool = False, variant: str = "exact"):
@@ -170,6 +170,17 @@ def leaf_obs_in_space(
         links[key]["current_load"] = 0 if b1 else links[key]["current_load"]
         if b2:
             del links[key]  # link missing from the state
+    elif grp == "fw":
+        # the firewall of the firewall-with-DMZ scenario in every power state, its ports enabled or not, or missing
+        assume(kind == "firewalled")
+        assume(all_of(rng(e2, 0, 1), rng(e3, 0, 0), rng(e4, 0, 0), rng(e5, 0, 0)))
+        fw = nodes["firewall_1"]
+        fw["operating_state"] = pick(_enum_vals(NodeOperatingState), e1)
+        for pn in (1, 2, 3):
+            if pn in fw["NICs"]:
+                fw["NICs"][pn]["enabled"] = b1 if pn != 2 else b2
+        if pick_int(e2, 0, 1) == 1:
+            del nodes["firewall_1"]
     elif grp == "absent":
         # components named by the observation config are missing from the state
         assume(all_of(rng(e1, 0, 4), rng(e2, 0, 0), rng(e3, 0, 0), rng(e4, 0, 0), rng(e5, 0, 0)))
@@ -320,16 +331,18 @@ def traffic_fp_replay(traffic: float = 0.0, speed: float = 100.0, bw: float = 10
 HARNESSES = {
     "leaf_obs_in_space": {
         "fn": leaf_obs_in_space,
-        "quick": [{"fixed": {"g": gi, "kind": "routed", "nmne": True}, "timeout": 280} for gi in range(len(GROUPS)) if gi != 3]
+        "quick": [{"fixed": {"g": gi, "kind": "routed", "nmne": True}, "timeout": 280} for gi in range(len(GROUPS)) if gi not in (3, 6)]
         + [{"fixed": {"g": 3, "kind": "routed", "nmne": True, "b1": b}, "timeout": 400} for b in (False, True)]
         + [{"fixed": {"g": 2, "kind": "switched", "nmne": False}, "timeout": 200}]
         # observation configs that list more / fewer components than the num_* sizes (truncated / padded by the real code)
         + [{"fixed": {"g": gi, "kind": "switched", "nmne": True, "variant": v}, "timeout": 280} for v in ("surplus", "padded") for gi in (0, 1, 5)]
         # the observed ftp-client transferred a file in the step the state is taken from
-        + [{"fixed": {"g": 0, "kind": "switched", "nmne": True, "variant": "surplus", "ftp": True}, "timeout": 280}],
-        "thorough": [{"fixed": {"g": gi, "kind": kd, "nmne": nm}, "timeout": 1200} for gi in range(len(GROUPS)) for kd in ("routed", "switched") for nm in (True, False) if not (gi == 3 and kd == "switched")]
-        + [{"fixed": {"g": gi, "kind": "routed", "nmne": True, "variant": v}, "timeout": 1200} for v in ("surplus", "padded") for gi in range(len(GROUPS))],
-        "cover": ["grp_host_sw", "grp_host_fs", "grp_nic", "grp_acl", "grp_link", "grp_absent"],
+        + [{"fixed": {"g": 0, "kind": "switched", "nmne": True, "variant": "surplus", "ftp": True}, "timeout": 280}]
+        + [{"fixed": {"g": 6, "kind": "firewalled", "nmne": True, "variant": v}, "timeout": 280} for v in ("exact", "no_users")],
+        "thorough": [{"fixed": {"g": gi, "kind": kd, "nmne": nm}, "timeout": 1200} for gi in range(len(GROUPS) - 1) for kd in ("routed", "switched") for nm in (True, False) if not (gi == 3 and kd == "switched")]
+        + [{"fixed": {"g": gi, "kind": "routed", "nmne": True, "variant": v}, "timeout": 1200} for v in ("surplus", "padded") for gi in range(len(GROUPS) - 1)]
+        + [{"fixed": {"g": 6, "kind": "firewalled", "nmne": nm, "variant": v}, "timeout": 1200} for v in ("exact", "no_users") for nm in (True, False)],
+        "cover": ["grp_host_sw", "grp_host_fs", "grp_nic", "grp_acl", "grp_link", "grp_absent", "grp_fw"],
         "bounds": "per group every member of the real enums, counts as unbounded non-negative integers, ACL rule fields "
         "listed/unlisted/None at slot 0 or 3; thresholds of the generated scenario; observation config listing exactly / more / fewer components than its num_* sizes",
     },
